@@ -236,7 +236,8 @@ theorem handler_needs_wellformed_key (p : Prims M S) (pk : PubKey) (a : Bytes)
     a = p.hashAddr pk ∧
     ((pk.alg = .ed25519 ∧ pk.data.length = ED25519_PUB_SIZE) ∨
      (pk.alg = .secp256k1 ∧ pk.data.length = SECP256K1_PUB_SIZE) ∨
-     ((pk.alg = .ethsecp ∨ pk.alg = .btcec) ∧ p.parses pk = true)) := by
+     (pk.alg = .ethsecp ∧ p.parses pk = true) ∨
+     (pk.alg = .btcec ∧ pk.data.length = SECP256K1_PUB_SIZE ∧ p.parses pk = true)) := by
   unfold keyAddr at h
   split at h
   · next ha => split at h
@@ -246,10 +247,13 @@ theorem handler_needs_wellformed_key (p : Prims M S) (pk : PubKey) (a : Bytes)
                · next hs => exact ⟨(Option.some.inj h).symm, .inr (.inl ⟨ha, hs⟩)⟩
                · cases h
   · next ha => split at h
-               · next hs => exact ⟨(Option.some.inj h).symm, .inr (.inr ⟨.inl ha, hs⟩)⟩
+               · next hs => exact ⟨(Option.some.inj h).symm, .inr (.inr (.inl ⟨ha, hs⟩))⟩
                · cases h
   · next ha => split at h
-               · next hs => exact ⟨(Option.some.inj h).symm, .inr (.inr ⟨.inr ha, hs⟩)⟩
+               · next hs =>
+                 have hs' : pk.data.length = SECP256K1_PUB_SIZE ∧ p.parses pk = true := by
+                   simpa using hs
+                 exact ⟨(Option.some.inj h).symm, .inr (.inr (.inr ⟨ha, hs'⟩))⟩
                · cases h
   · cases h
 
@@ -309,19 +313,24 @@ example : MessageBinding exPrimsOK := by
   intro pk m m' s h h'
   simp only [exPrimsOK, beq_iff_eq] at h h'
   omega
+/-- a BTCEC key of the one accepted length -/
+def bk : Bytes := List.replicate 33 2
 def exPrimsPrefix : Prims Nat Nat :=
   { parses := fun _ => true, hashAddr := fun pk => pk.data, sigVerify := fun _ m s => s == m % 100 }
 example : ¬ MessageBinding exPrimsPrefix := fun h => by
   have := h ⟨.btcec, []⟩ 7 107 7 (by decide) (by decide)
   revert this; decide
-example : validateBasicK exPrimsPrefix 7 [[2, 1]] [⟨⟨.btcec, [2, 1]⟩, 7⟩] = .ok ∧
-    validateBasicK exPrimsPrefix 107 [[2, 1]] [⟨⟨.btcec, [2, 1]⟩, 7⟩] = .ok := by decide
+example : validateBasicK exPrimsPrefix 7 [bk] [⟨⟨.btcec, bk⟩, 7⟩] = .ok ∧
+    validateBasicK exPrimsPrefix 107 [bk] [⟨⟨.btcec, bk⟩, 7⟩] = .ok := by decide
 
 /-- regression (former `btcec_counterexample`): the empty address with a BTCEC key and junk -/
-example : validateBasicK exPrims 7 [[]] [⟨⟨.btcec, [2, 1]⟩, 0⟩] = .unmatch := by decide
-example : validateBasicK exPrims 7 [[2, 1]] [⟨⟨.btcec, [2, 1]⟩, 0⟩] = .badSig := by decide
-example : validateBasicK exPrimsOK 7 [[2, 1]] [⟨⟨.btcec, [2, 1]⟩, 9⟩] = .ok := by decide
-example : validateBasicK exPrimsOK 7 [[2, 1]] [⟨⟨.btcec, [2, 1]⟩, 8⟩] = .badSig := by decide
+example : validateBasicK exPrims 7 [[]] [⟨⟨.btcec, bk⟩, 0⟩] = .unmatch := by decide
+example : validateBasicK exPrims 7 [bk] [⟨⟨.btcec, bk⟩, 0⟩] = .badSig := by decide
+example : validateBasicK exPrimsOK 7 [bk] [⟨⟨.btcec, bk⟩, 40⟩] = .ok := by decide
+example : validateBasicK exPrimsOK 7 [bk] [⟨⟨.btcec, bk⟩, 39⟩] = .badSig := by decide
+/-- a BTCEC key in another spelling (65 bytes: the uncompressed point) has no handler, although the
+    library parses it and the signature would verify -/
+example : validateBasicK exPrimsOK 7 [List.replicate 65 4] [⟨⟨.btcec, List.replicate 65 4⟩, 72⟩] = .badKey := by decide
 example : validateBasicK exPrims 7 [[9]] [⟨⟨.ed25519, [9]⟩, 0⟩] = .badKey := by decide
 
 /-! ## 4. Admission: CheckTx / DeliverTx run nothing of a transaction whose signatures do not validate -/
